@@ -482,7 +482,7 @@ Qed.
 Lemma write_vals_err size vals : forall m a ln e,
   0 <= a -> a + Z.of_nat (length vals) <= size ->
   toy_write_vals (toy_memcfg size) m a vals ln = PErr e ->
-  e = PUncaught ln /\ exists lit, In lit vals /\ long_decimal lit.
+  e = PSyntax ln /\ exists lit, In lit vals /\ long_decimal lit.
 Proof.
   induction vals as [|v t IH]; intros m a ln e Ha Hb H; [discriminate H|].
   cbn [length] in Hb.
@@ -563,14 +563,15 @@ Qed.
 
 Definition err_ok (size : Z) (l : list (Z * tline)) (e : perr) : Prop :=
   match e with
-  | PSyntax _ | POdd _ | PVariable _ | PDataDup _ => False
+  | POdd _ | PVariable _ | PDataDup _ => False
+  | PSyntax ln =>
+      exists x, In (ln, x) l /\ exists lit, In lit (line_literals x) /\ long_decimal lit
   | PLabel ln | PDupLabel ln | PDirective ln | PDataSyntax ln => In ln (map fst l)
   | PMemSize w => w = size
   | PMemAddr _ => False
   | PUncaught ln =>
       exists x, In (ln, x) l /\
-        ((exists lit, In lit (line_literals x) /\ long_decimal lit) \/
-         (exists inl op, x = TLInstr inl op TNoOperand /\ is_address_type op = true))
+        exists inl op, x = TLInstr inl op TNoOperand /\ is_address_type op = true
   end.
 
 Lemma err_ok_incl size l l' e : incl l l' -> err_ok size l e -> err_ok size l' e.
@@ -579,7 +580,7 @@ Proof.
   { intros ln Hin. apply in_map_iff in Hin as [[k x] [Hk Hin]]. apply in_map_iff.
     exists (k, x); split; [exact Hk | apply Hi; exact Hin]. }
   destruct e; cbn [err_ok]; try (intros H; exact H); try apply Hm.
-  intros [x [Hin Hx]]. exists x; split; [apply Hi; exact Hin | exact Hx].
+  all: intros [x [Hin Hx]]; exists x; split; [apply Hi; exact Hin | exact Hx].
 Qed.
 
 Lemma err_ok_cons size p l e : err_ok size l e -> err_ok size (p :: l) e.
@@ -603,7 +604,7 @@ Proof.
     assert (Ha1: 0 <= last - Z.of_nat (length vals0) + 1) by lia.
     assert (Hb1: last - Z.of_nat (length vals0) + 1 + Z.of_nat (length vals0) <= size) by lia.
     destruct (write_vals_err _ _ _ _ _ _ Ha1 Hb1 Ew) as [-> [lit [Hin Hlong]]].
-    cbn [err_ok]. exists (TLVar name0 vals0). split; [left; reflexivity|]. left.
+    cbn [err_ok]. exists (TLVar name0 vals0). split; [left; reflexivity|].
     exists lit; split; [exact Hin | exact Hlong].
 Qed.
 
@@ -696,12 +697,12 @@ Proof.
     + injection H as <-. subst this. destruct (is_address_type op0) eqn:Eat; [|discriminate Ethis].
       destruct opnd0 as [s|l|].
       * destruct (toy_value s) as [z|] eqn:Ev; [discriminate Ethis|]. injection Ethis as <-.
-        cbn [err_ok]. exists (TLInstr inl0 op0 (TAddrLit s)). split; [left; reflexivity|]. left.
+        cbn [err_ok]. exists (TLInstr inl0 op0 (TAddrLit s)). split; [left; reflexivity|].
         exists s. split; [left; reflexivity | apply toy_value_none_iff; exact Ev].
       * destruct (mget_opt labels l); [discriminate Ethis|]. injection Ethis as <-.
         cbn [err_ok map fst]. left; reflexivity.
       * injection Ethis as <-. cbn [err_ok]. exists (TLInstr inl0 op0 TNoOperand).
-        split; [left; reflexivity|]. right. exists inl0, op0. split; [reflexivity | exact Eat].
+        split; [left; reflexivity|]. exists inl0, op0. split; [reflexivity | exact Eat].
   - apply err_ok_cons. eapply IH; exact H.
 Qed.
 
@@ -1105,22 +1106,35 @@ Qed.
 
 Lemma toy_load_outcomes_lem : forall s toks s' e, toy_load s toks = (s', Some e) ->
   (forall ln, perr_line e = Some ln -> In ln (map fst toks)) /\
-  (match e with PSyntax _ | POdd _ | PVariable _ | PDataDup _ | PMemAddr _ => False
+  (match e with POdd _ | PVariable _ | PDataDup _ | PMemAddr _ => False
            | PMemSize w => w = t_size s | _ => True end) /\
-  (forall ln, e = PUncaught ln -> tokens_wf toks ->
-     exists x lit, In (ln, x) toks /\ In lit (line_literals x) /\ long_decimal lit).
+  (forall ln, e = PSyntax ln ->
+     exists x lit, In (ln, x) toks /\ In lit (line_literals x) /\ long_decimal lit) /\
+  (forall ln, e = PUncaught ln ->
+     exists inl op, In (ln, TLInstr inl op TNoOperand) toks /\ is_address_type op = true).
 Proof.
   intros s toks s' e H. apply toy_load_err in H.
   assert (Hfst: forall ln x, In (ln, x) toks -> In ln (map fst toks)).
   { intros ln x Hin. apply in_map_iff. exists (ln, x); split; [reflexivity | exact Hin]. }
-  split; [|split].
+  split; [|split; [|split]].
   - intros ln Hl. destruct e; cbn [perr_line] in Hl; try discriminate Hl;
       injection Hl as <-; cbn [err_ok] in H; try contradiction; try exact H.
-    destruct H as [x [Hin _]]. eapply Hfst; exact Hin.
+    all: destruct H as [x [Hin _]]; eapply Hfst; exact Hin.
   - destruct e; cbn [err_ok] in H; try contradiction; try exact Logic.I. exact H.
-  - intros ln -> Hwf. cbn [err_ok] in H. destruct H as [x [Hin [[lit [Hl Hlong]]|[inl [op [-> Hat]]]]]].
-    + exists x, lit. split; [exact Hin | split; [exact Hl | exact Hlong]].
-    + rewrite (Hwf _ _ _ Hin) in Hat. discriminate Hat.
+  - intros ln ->. cbn [err_ok] in H. destruct H as [x [Hin [lit [Hl Hlong]]]].
+    exists x, lit. split; [exact Hin | split; [exact Hl | exact Hlong]].
+  - intros ln ->. cbn [err_ok] in H. destruct H as [x [Hin [inl [op [-> Hat]]]]].
+    exists inl, op. split; [exact Hin | exact Hat].
+Qed.
+
+(* with the tokenizer's guarantee, nothing but parser errors comes out of the loader *)
+Lemma toy_load_no_uncaught_lem : forall s toks s' e, tokens_wf toks ->
+  toy_load s toks = (s', Some e) -> forall ln, e <> PUncaught ln.
+Proof.
+  intros s toks s' e Hwf H ln He.
+  destruct (toy_load_outcomes_lem _ _ _ _ H) as [_ [_ [_ Hu]]].
+  destruct (Hu ln He) as [inl [op [Hin Hat]]].
+  rewrite (Hwf _ _ _ Hin) in Hat. discriminate Hat.
 Qed.
 
 (** * 5. Layout of a successfully assembled program *)
@@ -1267,6 +1281,33 @@ Proof.
   destruct Ri as [a [Ha ->]]. split.
   - intros preL ln x postL Hl Hd. rewrite (Rl _ _ _ _ _ Hl Hd) in Ha. injection Ha as <-. reflexivity.
   - intros preV ln vals postV Hd. rewrite (Rv _ _ _ _ _ Hd) in Ha. injection Ha as <-. reflexivity.
+Qed.
+
+(* conversely, a program that loads has no oversized decimal literal in a data line or as the
+   operand of an address-type instruction *)
+Lemma toy_load_ok_literals_lem : forall s toks s' data text labels ins,
+  toy_load s toks = (s', None) ->
+  toy_parse (t_size s) toks = Some (data, text, labels, ins) ->
+  (forall ln name vals lit, In (ln, TLVar name vals) data -> In lit vals -> ~ long_decimal lit) /\
+  (forall ln inl op lit, In (ln, TLInstr inl op (TAddrLit lit)) text -> is_address_type op = true ->
+     ~ long_decimal lit).
+Proof.
+  intros s toks s' data text labels ins H Hp.
+  destruct (toy_data_layout_lem _ _ _ _ _ _ _ H Hp) as [_ Dv].
+  destruct (toy_labels_resolve_lem _ _ _ _ _ _ Hp) as [_ [_ [Ri _]]].
+  split.
+  - intros ln name vals lit Hin Hlit Hlong.
+    apply in_split in Hin as [pre [post Hd]].
+    destruct (Dv _ _ _ _ _ Hd) as [_ [_ Dc]].
+    apply (In_nth _ _ []) in Hlit as [j [Hj Hn]].
+    destruct (Dc j Hj) as [z [Hz _]].
+    assert (Hz': toy_value lit = Some z) by (rewrite <- Hn; exact Hz).
+    apply toy_value_none_iff in Hlong. rewrite Hlong in Hz'. discriminate Hz'.
+  - intros ln inl op lit Hin Hat Hlong.
+    apply in_split in Hin as [pre [post Ht]].
+    specialize (Ri _ _ _ _ _ _ Ht). unfold instr_denotes in Ri. rewrite Hat in Ri.
+    destruct Ri as [z [Hz _]].
+    apply toy_value_none_iff in Hlong. rewrite Hlong in Hz. discriminate Hz.
 Qed.
 
 (** ** Segment order *)
